@@ -9,7 +9,7 @@ Fixpoint has_bad_from (prev_paren : bool) (b : bytes) : bool :=
   | c :: r => if prev_paren && Ascii.eqb c (ascii_of_N 10) then true else has_bad_from (Ascii.eqb c "("%char) r
   end.
 Definition has_bad (b : bytes) : bool := has_bad_from false b.
-Definition wf_env : env := whole_env (fun src => if has_bad src then None else Some src) (fun _ l => l) [].
+Definition wf_env : env := whole_env (fun src => if has_bad src then None else Some src) (fun _ l => l) rank0 [].
 
 (* module m, packages a (types T0 T1 T2) and b (type T0), generators g1 and g2, All; previous outputs and a sum *)
 Definition wf_a : pkginfo :=
